@@ -789,6 +789,39 @@ func init() {
 				}
 				c.Cover("interior")
 			}})
+			// a map / slice field that is referred to again from inside its own entries / elements
+			us = append(us, core.Unit{Name: "containers-inside-themselves", Cost: 5, Run: func(c *core.Ctx) {
+				for code := 0; code < 64; code++ {
+					if !c.Begin() {
+						continue
+					}
+					c.NontrivialN(1)
+					c.Res.States++
+					n0, n1, n2 := &GLM{Id: 1}, &GLM{Id: 2}, &GLM{Id: 3}
+					m := map[string]*GLM{"a": n1}
+					l := []*GLM{n1, n2}
+					if code&1 != 0 {
+						n0.M = m
+					}
+					if code&2 != 0 {
+						n1.M = m // the entry's own object holds the map again
+					}
+					if code&4 != 0 {
+						n1.M2 = m
+					}
+					if code&8 != 0 {
+						n0.L = l
+					}
+					if code&16 != 0 {
+						n1.L = l // the element's own object holds the slice again
+					}
+					if code&32 != 0 {
+						n2.L2, n2.A = l, n0
+					}
+					c.Outcome(graphCheck(c, n0, fmt.Sprintf("GLM n0 with map/slice held again from inside (bits %06b: n0.M n1.M n1.M2 n0.L n1.L n2.L2+n2.A)", code), "containers inside themselves"))
+				}
+				c.Cover("containers-inside-themselves")
+			}})
 			// maps and slices held directly and behind pointers: the same container over two paths stays one container,
 			// two equal containers stay two
 			us = append(us, core.Unit{Name: "containers-behind-pointers", Cost: 5, Run: func(c *core.Ctx) {
@@ -867,7 +900,7 @@ func init() {
 			return us
 		},
 		RequireCover: func(string) []string {
-			l := []string{"families", "large", "interior", "containers-behind-pointers", "list-map-fields", "gc-during-encode"}
+			l := []string{"families", "large", "interior", "containers-behind-pointers", "containers-inside-themselves", "list-map-fields", "gc-during-encode"}
 			for _, f := range fillers() {
 				l = append(l, "filler:"+f.name)
 			}
